@@ -302,10 +302,23 @@ def run(tier):
         for b in a.payloads("BAD"):
             desc, u, deps = smeta[b["rec"] - 1]
             v.fail(dict(desc, tag="dependencies_differ_from_names_used"), {"source": u.src, "dependencies": deps})
+    # histories: whatever was exported before (and by which entry point), an Ok export with dependencies leaves no
+    # dangling import in the files of its closure (Trace_Export.tla, verdict C03i)
+    import exportchecks
+    hstats = {}
+    hres = exportchecks.run_slice("hist", tier, hstats)
+    for r_ in hres:
+        for b in r_["bad"]:
+            if b["tag"] == "C03i_dangling_import":
+                v.fail({"prop": PROP, "tag": "dangling_import_after_history", "history": exportchecks.describe_steps(r_["steps"]), "step": b["step"]},
+                       {"returns": r_["rets"], "final_tree": r_["final_tree"], "files": r_["blob_texts"]})
+    stats["states"] += hstats.get("states", 0)
+    stats["transitions"] += hstats.get("transitions", 0)
+    stats["trees"] += len(hres)
     rc = v.finish()
     cov = {"states": stats["states"], "transitions": stats["transitions"], "traces_validated_against_impl": stats["trees"] + len(srecs),
            "samples": stats["samples"], "exported_trees": stats["trees"], "files_parsed": stats["files"], "static_roots": len(srecs),
-           "edge_kinds": len(EDGES), "exhaustive": True,
+           "edge_kinds": len(EDGES), "export_histories": len(hres), "exhaustive": True,
            "rule": "every edge kind (%d) at the default placement + every (dependency placement x root placement x directory spelling) for the edge kinds %s; each under import-esm off and on; every written file parsed and judged by TLC" % (len(EDGES), PLACED)}
     vlib.write_evidence(PROP, tier, "model_checking", cov,
                         ["names inside #[ts(type = \"..\")] overrides are the user's text and are kept to built-ins in the generated cases",
